@@ -163,4 +163,56 @@ def ackCommittedOk (o : CallObs) : Bool := !o.ok || o.effect == .all
 def callClauses (trace : List CallObs) : List (String × Bool) :=
   [ ("ack_committed", trace.all ackCommittedOk) ]
 
+/-! ### an acknowledged operation survives a clean shutdown — also for a reader of the peer's disk
+
+"… and survives a restart or crash of any peer … a peer that has caught up by restarting from disk holds exactly
+the result of the whole sequence": once `Shutdown` has returned, what is read back from the peer's data folder
+(`raft.OfflineState`: state export, the state a recovered peer set is seeded with) is exactly what the peer served
+when it was shut down — whatever context `Shutdown` was called with (live, deadline-bound, expired, already
+cancelled). Together with `prefix` / `caught_up` / `ack_durable` on what the peer served, every operation it had
+acknowledged or applied is in that state. A kill promises nothing of the kind (the log has the entries, the
+snapshot may be older). The clause is a fold over the history: per peer, what it last served while up and with how
+many entries applied (`live`), and — set by a Shutdown, forgotten by any later event that changes the peer — the
+state its disk has to show (`disk`). A fresh peer serves the empty state with nothing applied. -/
+
+structure DiskExp where
+  rep : Nat
+  live : Option (Nat × PinMap) := some (0, [])
+  disk : Option PinMap := none
+
+def diskOf (st : List DiskExp) (i : Nat) : DiskExp := (st.find? (·.rep == i)).getD { rep := i }
+def diskSet (st : List DiskExp) (e : DiskExp) : List DiskExp := e :: st.filter (·.rep != e.rep)
+
+def shutdownDurableFrom : List DiskExp → List Obs → Bool
+  | _, [] => true
+  | st, o :: rest =>
+    let e := diskOf st o.rep
+    match o.ev with
+    | .shutdown =>
+      if o.res == .noop then shutdownDurableFrom st rest else
+      let disk := match e.live with
+        | some (a, m) => if a == o.applied then some m else none   -- something was applied since the peer was last read
+        | none => none
+      shutdownDurableFrom (diskSet st { e with live := none, disk := disk }) rest
+    | .offline =>
+      if o.res == .ok then
+        -- the peer is down: its data folder was read
+        (match e.disk, o.view with
+         | some d, .pins m => sameMap m d
+         | some _, _ => false
+         | none, _ => true) && shutdownDurableFrom st rest
+      else
+        (match o.view with
+         | .pins m => shutdownDurableFrom (diskSet st { e with live := some (o.applied, m), disk := none }) rest
+         | _ => shutdownDurableFrom st rest)
+    | _ =>
+      match o.view with
+      | .pins m => shutdownDurableFrom (diskSet st { e with live := some (o.applied, m), disk := none }) rest
+      | .error => shutdownDurableFrom (diskSet st { e with live := none, disk := none }) rest
+      | .down => if o.res == .noop then shutdownDurableFrom st rest
+                 else shutdownDurableFrom (diskSet st { e with live := none, disk := none }) rest
+
+def shutdownClauses (trace : List Obs) : List (String × Bool) :=
+  [ ("shutdown_durable", shutdownDurableFrom [] trace) ]
+
 end CV.C01
